@@ -5,7 +5,7 @@ class C08(TieCheck):
     pid = "C08"
     area = "Route"
     coq_targets = ["Corr.vo"]
-    extra_props = [("Dispatch", "Props_C08_dispatch.v")]
+    extra_props = [("Dispatch", "Props_C08_dispatch.v"), ("Compose", "Props_Compose.v")]
     props = ["Props_C08.v", "Props_C08_tsr.v", "Props_C09_e2e.v"]
     harness = "c01"
     extra_trust = ["model M1: coq/Route/Lookup.v (tsr detection sites and propagation); specification: Spec.spec_lookup = direct(host) > tsr(host) > direct(path) > tsr(path) on the slash-toggled path",
